@@ -14,7 +14,7 @@ func init() { props["C17"] = checkC17 }
 const ssPkg = "keyperimpl/shutterservice"
 
 func checkC17(p *Prog, c *Check) {
-	c.Explain("Decides for all definitions, logs and byte strings: (1) Match, ToFilterQuery, UnmarshalBytes and the RLP hooks never index or slice out of bounds, never allocate a log-chosen size that is not bounded by the log's data, and every operator case that indexes IntArgs[k]/ByteArgs[k] is covered by the argument counts validation establishes for that operator — proved with validated-receiver assumptions that are themselves justified by rules (UnmarshalBytes succeeds only through Validate; Validate validates every predicate; Match/ToFilterQuery are only called on definitions that passed UnmarshalBytes in the same function); (2) encoder and decoder of the predicate RLP agree on element order and the decoder reads exactly the operator's argument counts and requires the list end; (3) every constraint the filter contains is a conjunct Match also enforces (contract address; topic[Offset] == 32-byte BytesEq argument stored at index Offset), and every error exit of ToFilterQuery is excluded by a rejecting check in Validate; (4) all operator switches cover the same constant set. Not decided: that Match equals the documented predicate semantics on well-formed data (value level), work bounds beyond bounded allocation.")
+	c.Explain("Decides for all definitions, logs and byte strings: (1) Match, ToFilterQuery, UnmarshalBytes and the RLP hooks never index or slice out of bounds, never allocate a log-chosen size that is not bounded by the log's data, and every operator case that indexes IntArgs[k]/ByteArgs[k] is covered by the argument counts validation establishes for that operator — proved with validated-receiver assumptions that are themselves justified by rules (UnmarshalBytes succeeds only through Validate; Validate validates every predicate; Match/ToFilterQuery are only called on definitions that passed UnmarshalBytes in the same function); (2) encoder and decoder of the predicate RLP agree on element order and the decoder reads exactly the operator's argument counts and requires the list end; (3) every constraint the filter contains is a conjunct Match also enforces (contract address; topic[Offset] == 32-byte BytesEq argument stored at index Offset), and every error exit of ToFilterQuery is excluded by a rejecting check in Validate; (4) all operator switches cover the same constant set. (5) each operator case of ValuePredicate.Match returns the full-width comparison the operator stands for. Not decided: work bounds beyond bounded allocation.")
 	c.RuleText("BOUNDS with validated-receiver typestate + MUSTPASS + SIBLING(EncodeRLP ↔ DecodeRLP, filter ↔ Match, ToFilterQuery errors ↔ Validate checks, operator case tables)")
 	c.Trusted("go-ethereum rlp, common, types", "math/big", "go/ssa")
 	c17Typestate(p, c)
